@@ -635,7 +635,18 @@ func runC13Chains(c *core.Ctx, sub int) {
 				}
 				ref[k] = v
 			}
-			// a competing Open while this handle is open
+			// a competing Open while this handle is open; in every other session the directory also holds the kind of files a
+			// recovery in progress keeps there (X.bac), which the loser must not touch either (seeded/R7-C13-m1)
+			var planted []string
+			if s%2 == 1 {
+				for _, n := range []string{"main.pix.bac", "overflow.pix.bac", "index.pmt.bac", "db.pmt.bac"} {
+					pth := filepath.Join(env.Dir, n)
+					if err := env.WriteFile(pth, []byte("backup kept by the owner of the lock")); err == nil {
+						planted = append(planted, pth)
+						c.Stat("competing_open_with_bac_files_present", 1)
+					}
+				}
+			}
 			before := listing(env)
 			if db2, err := env.Open(cfg); err == nil {
 				db2.Close()
@@ -650,6 +661,9 @@ func runC13Chains(c *core.Ctx, sub int) {
 					c.Violation("competing-open-changed-directory", fmt.Sprintf("chain %v on %s session %d: a failed competing Open changed the directory", desc, fsk, s), nil)
 					ok = false
 				}
+			}
+			for _, pth := range planted {
+				env.FS.Remove(pth)
 			}
 			if unclean {
 				// the session ends without Close: the next session runs on a copy of the directory taken now
